@@ -81,6 +81,11 @@ pub fn templates() -> Vec<Tpl> {
         ("valid-start-end-line-beyond", json!({"range": range((2, 2), (9, 0)), "text": "W"})),
         ("u32-max", json!({"range": range((4294967295, 4294967295), (4294967295, 4294967295)), "text": "M"})),
         ("end-col-u32-max", json!({"range": range((0, 0), (0, 4294967295)), "text": "E"})),
+        // the same over-long columns on line 1, which holds a 2-byte and a 4-byte character
+        ("col-beyond-line-multibyte", json!({"range": range((1, 40), (1, 40)), "text": "X"})),
+        ("col-just-beyond-line-multibyte", json!({"range": range((1, 15), (1, 15)), "text": "X"})),
+        ("valid-start-end-beyond-line-multibyte", json!({"range": range((1, 2), (1, 40)), "text": "V"})),
+        ("end-col-u32-max-multibyte", json!({"range": range((1, 0), (1, 4294967295)), "text": "E"})),
     ];
     for (nm, c) in &singles {
         v.push(n(&format!("change-d1-{nm}"), "textDocument/didChange", chg("d1", vec![c.clone()])));
@@ -90,6 +95,7 @@ pub fn templates() -> Vec<Tpl> {
     }
     v.push(n("change-d1-valid-valid", "textDocument/didChange", chg("d1", vec![valid.clone(), json!({"range": range((0, 0), (0, 3)), "text": ""})])));
     v.push(n("change-d3-unknown", "textDocument/didChange", chg("d3", vec![valid.clone()])));
+    v.push(n("change-d2-unknown-position", "textDocument/didChange", chg("d2", vec![json!({"range": range((900, 0), (900, 1)), "text": "ZZ"})])));
     v.push(n("change-untitled", "textDocument/didChange", chg("untitled", vec![valid.clone()])));
     // requests
     let tdp = |d: &str, p: (u32, u32)| json!({"textDocument": {"uri": uri(d)}, "position": pos(p.0, p.1)});
@@ -637,6 +643,34 @@ pub fn run(tier: Tier) -> i32 {
     let m_in = tier.pick(2usize, 3usize);
     let seqs_in = all_seqs(&tpls, m_in);
     do_layer(&mut rep, &format!("inproc-all-sequences-le{m_in}"), &seqs_in, false);
+    // non-initial store: a document has been forgotten (its slot in the store is vacant) before
+    // the sequence starts - every pair of templates after each way of losing d1
+    {
+        let idx = |name: &str| tpls.iter().position(|t| t.name() == name);
+        // a second document is opened first, so that the vacated slot lies below an occupied one
+        let prefixes: [&[&str]; 4] = [
+            &["open-d2", "change-d1-line-far-beyond"],
+            &["open-d2", "change-d1-reversed-same-line"],
+            &["open-d2", "open-d3-nonascii", "change-d2-unknown-position"],
+            &["open-d2", "open-d3-nonascii", "change-d1-line-far-beyond"],
+        ];
+        let pairs = all_seqs(&tpls, 2);
+        let mut seqs3: Vec<Vec<usize>> = vec![];
+        for pre in prefixes {
+            let Some(pi) = pre.iter().map(|f| idx(f)).collect::<Option<Vec<usize>>>() else {
+                continue;
+            };
+            for p in &pairs {
+                if p.len() == 2 {
+                    let mut s = pi.clone();
+                    s.extend(p.iter().copied());
+                    seqs3.push(s);
+                }
+            }
+        }
+        rep.guard(!seqs3.is_empty(), "forgotten-document prefixes found");
+        do_layer(&mut rep, "inproc-pairs-after-a-forgotten-document", &seqs3, false);
+    }
     // URI shapes: per URI all sequences over its own six messages (followed by the canary checks)
     let mut uri_classes: BTreeSet<String> = BTreeSet::new();
     {
